@@ -111,8 +111,8 @@ check_state(STR_T s, const model *m)
         return;
     }
     CHECK("reported capacity greater than length", F(get_size)(s) > F(get_len)(s));
-    CBMC_ONLY(CHECK("allocation at least as large as reported capacity", (IDX_T) __CPROVER_OBJECT_SIZE(s->s) >= s->size));
-    CBMC_ONLY(CHECK("text pointer is the start of its buffer", __CPROVER_POINTER_OFFSET(s->s) == 0));
+    CHECK("allocation at least as large as reported capacity", (IDX_T) OBJ_SIZE(s->s) >= s->size);
+    CHECK("text pointer is the start of its buffer", IS_ALLOC_START(s->s));
     for (i = 0; i < m->len && i < MAXT; i++) {
         CHECK("text equals the ideal sequence", (unsigned char) s->s[i] == m->t[i]);
     }
